@@ -423,7 +423,8 @@ async fn poison(srv: &Server, rng: &mut Rng, cases: u64, tag: &str) {
         for proto in 0..3u64 {
             let r = LReq { key: format!("{tag}p{c}_{proto}"), b, count: 1, period: 1000, q: Some(1) };
             let w1 = send(srv, proto, &r, rng.below(1000)).await;
-            let w2 = send(srv, (proto + 1) % 3, &r, rng.below(1000)).await;
+            // second probe: a NEW connection of the SAME protocol (sharing between protocols is C09's and C12's business)
+            let w2 = send(srv, proto, &r, rng.below(1000)).await;
             probes.push(format!("{{\"proto\":{proto},\"b\":{b},\"first\":{},\"second_other_proto\":{}}}", w1.json(), w2.json()));
         }
         let health = http_raw(srv.http, b"GET /health HTTP/1.1\r\nHost: x\r\nConnection: close\r\n\r\n", false).await.map(|(s, b)| s == 200 && b == "OK").unwrap_or(false);
